@@ -57,6 +57,9 @@ def Flaky(x: int, tag: int = 0) -> int:
     R.rec("Flaky", x, tag)
     if R.FLAGS.get("on_body"):
         R.FLAGS["on_body"]()
+    if R.FLAGS.get("chdir"):
+        import os
+        os.chdir(R.FLAGS["chdir"])       # a body that changes the working directory itself
     if R.FLAGS.get("fail"):
         raise ValueError("Flaky failed")
     return x * 10 + tag
@@ -303,10 +306,12 @@ from pydra.utils.messenger import Messenger  # noqa: E402
 
 
 class ListMessenger(Messenger):
-    """in-memory messenger (public plug-in API); records go to vf.rec.MSGS"""
+    """in-memory messenger (public plug-in API); records go to vf.rec.MSGS; can be told to fail on the closing record"""
 
     def send(self, message, **kwargs):
         import vf.rec as R
+        if R.FLAGS.get("messenger_fails_on_end") and "endedAtTime" in message:
+            raise RuntimeError("messenger failed on the closing record")
         R.MSGS.append(dict(message))
 
 
